@@ -219,11 +219,17 @@ func runDaemonReqs(r *run) error {
 		} else if hasLong(flags, "--delete") {
 			pl.Write(le32(0))
 		}
-		o := fopts{}
+		o := (&hostileSpec{}).fopts(flags) // the fields the daemon will expect per entry (-o, -g, -c ...)
 		if !hasLong(flags, "--sender") {
 			refEncodeEntry(&pl, o, fchoice{long: true}, fentry{name: []byte("."), mode: sIFDIR | 0o755, mtime: 1_500_000_000, csum: make([]byte, 16)}, false)
 			refEncodeEntry(&pl, o, fchoice{long: true}, fentry{name: []byte("uploaded"), mode: sIFDIR | 0o755, mtime: 1_500_000_000, csum: make([]byte, 16)}, false)
 			pl.WriteByte(0)
+			if o.uid {
+				pl.Write(le32(0))
+			}
+			if o.gid {
+				pl.Write(le32(0))
+			}
 			pl.Write(le32(0))
 		}
 		sp := sessionSpec{Kind: "daemonreq", ID: id, TimeoutMs: 15000,
@@ -262,8 +268,11 @@ func runDaemonReqs(r *run) error {
 					r.oracleFail(id, "an upload into the non-writable module "+m.Name+" was accepted instead of refused", detail)
 				}
 			}
-			if changed != "" && obs != "receiver" {
-				r.oracleFail(id, "a module changed although the request was not accepted as an upload ("+obs+"): "+changed, detail)
+			// a change of any module other than the requested one is never legitimate
+			for _, m := range mods {
+				if strings.Contains(changed, m.Name+",") && m.Name != strings.TrimSpace(req) {
+					r.oracleFail(id, "module "+m.Name+" changed through a request for module "+strings.TrimSpace(req)+" ("+obs+")", detail)
+				}
 			}
 		}()
 	}
